@@ -187,6 +187,9 @@ class CallMixin:
         return env
 
     def call_function(self, st, fi, pos, kw, node, closure_env=None):
+        if fi.foreign_decorators():
+            raise Unsupported(f"{fi.key} is decorated with {fi.foreign_decorators()}: a wrapper (cache, ...) whose behaviour "
+                              "is not that of the body")
         env = self.bind_args(fi, pos, kw, node)
         if isinstance(env, Exc):
             return [(st, env)]
